@@ -279,6 +279,30 @@ pub fn c03exec(args: &[String]) {
                 idx += 1;
             }
         }
+        // every block cut short CONSISTENTLY: its header says k bytes and is flagged last, k bytes of its body follow and the
+        // frame ends there (no checksum flag) -- so each section parser meets the exact end of its input at every offset
+        if let Ok(lay) = crate::frames::walk_frame(bytes) {
+            let hdr = lay["hdr"].as_u64().unwrap() as usize;
+            for b in lay["blocks"].as_array().unwrap() {
+                let (at, c, ty) = (b["at"].as_u64().unwrap() as usize, b["c"].as_u64().unwrap() as usize, b["type"].as_u64().unwrap() as u32);
+                if ty != 2 || c > 400 {
+                    continue;
+                }
+                for k in 0..c {
+                    if want(idx) {
+                        let mut m = bytes[..at].to_vec();
+                        m[4] &= !0x04; // no content checksum
+                        let _ = hdr;
+                        let h = ((k as u32) << 3) | (ty << 1) | 1;
+                        m.extend_from_slice(&h.to_le_bytes()[..3]);
+                        m.extend_from_slice(&bytes[at + 3..at + 3 + k]);
+                        *kinds.entry("block_cut".into()).or_insert(0) += 1;
+                        cx.case(idx, &|| json!({"kind": "block_cut", "frame": name, "block_at": at, "length": k}), &m, dicts);
+                    }
+                    idx += 1;
+                }
+            }
+        }
         // insertion / deletion of a byte at a few positions
         for pos in [0usize, 4, 5, 6, 9, bytes.len() / 2, bytes.len().saturating_sub(1)] {
             if pos < bytes.len() {
